@@ -29,6 +29,10 @@ SEGS = [segment(i) for i in range(12)]
 REFS = [[0, 1, 2], [0, 1, 3], [4, 5, 6], [4, 5, 7], [0, 1, 2], [8, 9]]
 QUERIES = {'g1': [0, 1, 2], 'g2': [0, 1, 8], 'g3': [4, 5, 6, 7], 'g4': [9]}
 QFILES = {'g1': 'g1.fasta', 'g2': 'g2.fa', 'g3': 'g3.fna.gz', 'g4': 'dir.with.dots/g4'}
+# extra query genomes used by some checks: no k-mer at all (empty signature under every parameter set); names that contain their own
+# extension text elsewhere
+EXTRA_QUERIES = {'empty1': 'EMPTY', 'empty2': 'EMPTY', 'E.faecalis_V583': [0, 1, 9], 'P.fa.lciparum.fasta_x': [4, 5]}
+EXTRA_QFILES = {'empty1': 'empty1.fasta', 'empty2': 'empty2.fa.gz', 'E.faecalis_V583': 'E.faecalis_V583.fa', 'P.fa.lciparum.fasta_x': 'P.fa.lciparum.fasta_x.fasta.gz'}
 
 TAXA = [
 	dict(name='Genus one', parent=None, thr=0.95, rank='genus', ncbi_id=100),
@@ -42,6 +46,8 @@ REF_TAXA = [1, 1, 2, 2, 1, 4]
 
 def contigs_of(segs):
 	"""Two contigs per genome (so multi-record parsing is exercised)."""
+	if segs == 'EMPTY':
+		return ['GGGGCCCCGGGGCCCCGGGG', 'CCCCCCCCCC']        # neither AT / AC / ATGAC nor their reverse complements occur
 	h = max(1, len(segs) // 2)
 	return [''.join(SEGS[s] for s in segs[:h])] + ([''.join(SEGS[s] for s in segs[h:])] if segs[h:] else [])
 
@@ -86,6 +92,11 @@ def build(d, params=('P0',), ref_names=None, taxa=None, qlabels=None):
 		alt = os.path.join(d, 'qalt', (QFILES[lab][:-3] if QFILES[lab].endswith('.gz') else QFILES[lab] + '.gz'))
 		fixtures.write_fasta(alt, contigs_of(segs), gz=alt.endswith('.gz'))
 		fx.qgz[lab] = alt
+	fx.qx = {}
+	for lab, segs in EXTRA_QUERIES.items():
+		p = os.path.join(d, 'q', EXTRA_QFILES[lab])
+		fixtures.write_fasta(p, contigs_of(segs), gz=p.endswith('.gz'))
+		fx.qx[lab] = p
 	# the same genomes as multi-member gzip files (what bgzip / `cat a.gz b.gz` produce; valid gzip), members cut mid-record
 	fx.qmulti = {}
 	import gzip, io
